@@ -31,6 +31,17 @@ pub fn verif_root() -> String {
     std::env::var("VERIF_ROOT").unwrap_or_else(|_| "/verif".to_string())
 }
 
+/// where evidence and replay artefacts are written (default: the verif root; scratch
+/// runs against a copy of the repository write elsewhere)
+pub fn out_root() -> String {
+    std::env::var("VERIF_OUT").unwrap_or_else(|_| verif_root())
+}
+
+/// the repository under test (sources are linked at build time; this is for data files)
+pub fn repo_root() -> String {
+    std::env::var("VERIF_REPO").unwrap_or_else(|_| "/repo".to_string())
+}
+
 #[derive(Clone, Debug)]
 pub struct Known {
     pub status: String,
@@ -134,7 +145,7 @@ impl Ctx {
         let known = load_known();
         let violations = self.violations.into_inner().unwrap();
         let observations = self.observations.into_inner().unwrap();
-        let root = verif_root();
+        let root = out_root();
         // replay artefacts belong to one run
         if self.only_key.is_none() {
             let _ = std::fs::remove_dir_all(format!("{}/replays/{}", root, self.prop));
